@@ -1,1 +1,283 @@
 // Kani contract harnesses for /repo/arrow-ord/src/sort.rs (child module: sees private items via super::)
+use super::*;
+use arrow_array::ArrowNativeTypeOp;
+use arrow_buffer::{BooleanBuffer, Buffer, NullBuffer, ScalarBuffer};
+#[path = "/verif/kani/support/spec.rs"]
+mod spec;
+use spec::*;
+
+// ---------------------------------------------------------------------------------------------------------
+// CONTRACT STUB for the sorting engine (assumption of every unit below that names it):
+//   sort::sort_unstable_by(array, limit, cmp)  [arrow's 8-line wrapper around std `slice::sort_unstable_by`
+//   and `partial_sort` = std `select_nth_unstable_by` + `sort_unstable_by`]
+//   ensures: `array` is a permutation of its old contents; the first `limit` elements are sorted under `cmp`
+//   and every one of them is <= (under cmp) every element at position >= limit. Requires limit <= len (std's
+//   select_nth panics otherwise: kept as an assertion so that arrow's v_limit computation is checked).
+// Std's sort on 3 elements needs 45 GB in CBMC (DESIGN.md section 3), hence the stub. The permutation is built
+// by a nondeterministic Fisher-Yates shuffle (swaps only: no Clone/Arbitrary bound on T is needed, every
+// permutation is reachable), then constrained with kani::assume using the comparator that was passed in.
+// ---------------------------------------------------------------------------------------------------------
+fn stub_sort_unstable_by<T, F>(array: &mut [T], limit: usize, mut cmp: F)
+where
+    F: FnMut(&T, &T) -> Ordering,
+{
+    let n = array.len();
+    assert!(limit <= n, "partial_sort/select_nth_unstable_by would panic: limit > len");
+    let mut i = 0;
+    while i < n {
+        let j: usize = kani::any();
+        kani::assume(i <= j && j < n);
+        array.swap(i, j);
+        i += 1;
+    }
+    let mut i = 0;
+    while i < limit {
+        let mut j = i + 1;
+        while j < n {
+            kani::assume(cmp(&array[i], &array[j]) != Ordering::Greater);
+            j += 1;
+        }
+        i += 1;
+    }
+}
+
+/// Spec side of the slot order for the valid part of a sort: key order, reversed iff descending.
+fn ord_desc(o: Ordering, d: bool) -> Ordering {
+    if !d { o } else { match o { Ordering::Less => Ordering::Greater, Ordering::Greater => Ordering::Less, Ordering::Equal => Ordering::Equal } }
+}
+
+// Contract (C10): sort_impl(options, valids, nulls, limit, cmp) -- arrow's own logic around the (stubbed)
+// sorting engine -- for NV valid (index, value) pairs with indices 0..NV and NN null indices 100, 101
+// (counts, `limit` (LIMIT < 0 means None) and nulls_first are CONCRETE per instance because they size
+// extend_from_slice / take() -- grid rule; values and `descending` symbolic):
+//  (1) out.len() == min(limit or total, total);
+//  (2) null placement: with nulls_first the output starts with the first min(NN, len) null indices in INPUT
+//      order, followed only by valid indices; with nulls last it starts with min(NV, len) valid indices,
+//      followed by the null indices in input order;
+//  (3) the valid part is non-decreasing under the key order (mathematical order for i32, IEEE totalOrder
+//      key for f32), non-increasing when descending;
+//  (4) truncation keeps the smallest: every valid index missing from the output has a value that does not
+//      sort before any valid value present in the output;
+//  (5) permutation prefix: no index occurs twice, every output element is one of the input indices.
+// Assumption: the sort engine meets the contract stated at stub_sort_unstable_by (std is trusted).
+macro_rules! sort_impl_unit {
+    ($name:ident, $t:ty, $nv:expr, $nn:expr, $limit:expr, $nf:expr, $key:expr) => {
+        #[kani::proof]
+        #[kani::stub(sort_unstable_by, stub_sort_unstable_by)]
+        fn $name() {
+            const NV: usize = $nv;
+            const NN: usize = $nn;
+            let vals: [$t; NV] = kani::any();
+            let mut valids: [(u32, $t); NV] = [(0, vals.get(0).copied().unwrap_or_default()); NV];
+            let mut k = 0;
+            while k < NV { valids[k] = (k as u32, vals[k]); k += 1; }
+            let nulls_all = [100u32, 101];
+            let nulls = &nulls_all[..NN];
+            let options = SortOptions { descending: kani::any(), nulls_first: $nf };
+            const LIMIT: i64 = $limit;
+            let limit: Option<usize> = if LIMIT < 0 { None } else { Some(LIMIT as usize) };
+            let out = sort_impl(options, &mut valids[..], nulls, limit, <$t as ArrowNativeTypeOp>::compare);
+            let total = NV + NN;
+            let want_len = match limit { Some(l) => if l < total { l } else { total }, None => total };
+            // (1)
+            assert!(out.len() == want_len);
+            let key = $key;
+            let n_nulls_out = if options.nulls_first { if NN < want_len { NN } else { want_len } } else { if want_len > NV { want_len - NV } else { 0 } };
+            let n_valid_out = want_len - n_nulls_out;
+            let valid_start = if options.nulls_first { n_nulls_out } else { 0 };
+            let null_start = if options.nulls_first { 0 } else { n_valid_out };
+            // (2)
+            let mut p = 0;
+            while p < NN { if p < n_nulls_out { assert!(out[null_start + p] == nulls_all[p]); } p += 1; }
+            let mut p = 0;
+            while p < NV { if p < n_valid_out { assert!((out[valid_start + p] as usize) < NV); } p += 1; }
+            // (3)
+            let mut p = 0;
+            while p + 1 < NV {
+                if p + 1 < n_valid_out {
+                    let (x, y) = (vals[out[valid_start + p] as usize], vals[out[valid_start + p + 1] as usize]);
+                    assert!(ord_desc(key(x).cmp(&key(y)), options.descending) != Ordering::Greater);
+                }
+                p += 1;
+            }
+            // (5) + (4)
+            let mut present = [false; NV];
+            let mut p = 0;
+            while p < NV {
+                if p < n_valid_out {
+                    let id = out[valid_start + p] as usize;
+                    assert!(!present[id]);
+                    present[id] = true;
+                }
+                p += 1;
+            }
+            let mut m = 0;
+            while m < NV {
+                let mut q = 0;
+                while q < NV {
+                    if !present[m] && present[q] {
+                        assert!(ord_desc(key(vals[m]).cmp(&key(vals[q])), options.descending) != Ordering::Less);
+                    }
+                    q += 1;
+                }
+                m += 1;
+            }
+            kani::cover!(options.descending);
+            kani::cover!(!options.descending);
+            kani::cover!(NV < 2 || (options.descending && key(vals[0]) != key(vals[1])));
+            // the engine really permuted something / the partial path (limit < valids.len()) was taken
+            kani::cover!(n_valid_out < 2 || out[valid_start] > out[valid_start + 1]);
+            kani::cover!(n_valid_out == NV || n_valid_out == 0 || present.get(0) == Some(&false));
+        }
+    };
+}
+// @unit name=sort_impl_i32_3_2_none_nf props=C10 kind=bounded bound=3_valid_2_null_limit_none_nulls_first fns=sort_impl mem=2 timeout=900 tier=thorough note=not_confirmed_under_load
+sort_impl_unit!(sort_impl_i32_3_2_none_nf, i32, 3, 2, -1, true, |x: i32| x as i64);
+// @unit name=sort_impl_i32_3_2_none_nl props=C10 kind=bounded bound=3_valid_2_null_limit_none_nulls_last fns=sort_impl mem=2 timeout=900
+sort_impl_unit!(sort_impl_i32_3_2_none_nl, i32, 3, 2, -1, false, |x: i32| x as i64);
+// @unit name=sort_impl_i32_3_2_l0_nf props=C10 kind=bounded bound=3_valid_2_null_limit_0_nulls_first fns=sort_impl mem=2 timeout=900 tier=thorough note=not_confirmed_under_load
+sort_impl_unit!(sort_impl_i32_3_2_l0_nf, i32, 3, 2, 0, true, |x: i32| x as i64);
+// @unit name=sort_impl_i32_3_2_l1_nf props=C10 kind=bounded bound=3_valid_2_null_limit_1_nulls_first fns=sort_impl mem=2 timeout=900 tier=thorough note=not_confirmed_under_load
+sort_impl_unit!(sort_impl_i32_3_2_l1_nf, i32, 3, 2, 1, true, |x: i32| x as i64);
+// @unit name=sort_impl_i32_3_2_l2_nf props=C10 kind=bounded bound=3_valid_2_null_limit_2_nulls_first fns=sort_impl mem=2 timeout=900
+sort_impl_unit!(sort_impl_i32_3_2_l2_nf, i32, 3, 2, 2, true, |x: i32| x as i64);
+// @unit name=sort_impl_i32_3_2_l3_nl props=C10 kind=bounded bound=3_valid_2_null_limit_3_nulls_last fns=sort_impl mem=2 timeout=900 tier=thorough note=not_confirmed_under_load
+sort_impl_unit!(sort_impl_i32_3_2_l3_nl, i32, 3, 2, 3, false, |x: i32| x as i64);
+// @unit name=sort_impl_i32_3_2_l3_nf props=C10 kind=bounded bound=3_valid_2_null_limit_3_nulls_first fns=sort_impl mem=2 timeout=900 tier=thorough note=not_confirmed_under_load
+sort_impl_unit!(sort_impl_i32_3_2_l3_nf, i32, 3, 2, 3, true, |x: i32| x as i64);
+// @unit name=sort_impl_i32_3_2_l4_nf props=C10 kind=bounded bound=3_valid_2_null_limit_4_nulls_first fns=sort_impl mem=2 timeout=900
+sort_impl_unit!(sort_impl_i32_3_2_l4_nf, i32, 3, 2, 4, true, |x: i32| x as i64);
+// @unit name=sort_impl_i32_3_2_l4_nl props=C10 kind=bounded bound=3_valid_2_null_limit_4_nulls_last fns=sort_impl mem=2 timeout=900 tier=thorough note=not_confirmed_under_load
+sort_impl_unit!(sort_impl_i32_3_2_l4_nl, i32, 3, 2, 4, false, |x: i32| x as i64);
+// @unit name=sort_impl_i32_3_2_l5_nf props=C10 kind=bounded bound=3_valid_2_null_limit_5_nulls_first fns=sort_impl tier=thorough mem=2 timeout=900 note=not_confirmed_under_load
+sort_impl_unit!(sort_impl_i32_3_2_l5_nf, i32, 3, 2, 5, true, |x: i32| x as i64);
+// @unit name=sort_impl_i32_3_2_l6_nl props=C10 kind=bounded bound=3_valid_2_null_limit_6_nulls_last fns=sort_impl mem=2 timeout=900 tier=thorough note=not_confirmed_under_load
+sort_impl_unit!(sort_impl_i32_3_2_l6_nl, i32, 3, 2, 6, false, |x: i32| x as i64);
+// @unit name=sort_impl_i32_3_2_l6_nf props=C10 kind=bounded bound=3_valid_2_null_limit_6_nulls_first fns=sort_impl tier=thorough mem=2 timeout=900 note=not_confirmed_under_load
+sort_impl_unit!(sort_impl_i32_3_2_l6_nf, i32, 3, 2, 6, true, |x: i32| x as i64);
+// @unit name=sort_impl_i32_3_2_l1_nl props=C10 kind=bounded bound=3_valid_2_null_limit_1_nulls_last fns=sort_impl tier=thorough mem=2 timeout=900 note=not_confirmed_under_load
+sort_impl_unit!(sort_impl_i32_3_2_l1_nl, i32, 3, 2, 1, false, |x: i32| x as i64);
+// @unit name=sort_impl_i32_3_2_l2_nl props=C10 kind=bounded bound=3_valid_2_null_limit_2_nulls_last fns=sort_impl tier=thorough mem=2 timeout=900 note=not_confirmed_under_load
+sort_impl_unit!(sort_impl_i32_3_2_l2_nl, i32, 3, 2, 2, false, |x: i32| x as i64);
+// @unit name=sort_impl_i32_4_2_none_nl props=C10 kind=bounded bound=4_valid_2_null_limit_none_nulls_last fns=sort_impl tier=thorough mem=2 timeout=900 note=not_confirmed_under_load
+sort_impl_unit!(sort_impl_i32_4_2_none_nl, i32, 4, 2, -1, false, |x: i32| x as i64);
+// @unit name=sort_impl_i32_4_2_l3_nf props=C10 kind=bounded bound=4_valid_2_null_limit_3_nulls_first fns=sort_impl tier=thorough mem=2 timeout=900 note=not_confirmed_under_load
+sort_impl_unit!(sort_impl_i32_4_2_l3_nf, i32, 4, 2, 3, true, |x: i32| x as i64);
+// @unit name=sort_impl_i32_4_2_l5_nf props=C10 kind=bounded bound=4_valid_2_null_limit_5_nulls_first fns=sort_impl tier=thorough mem=2 timeout=900 note=not_confirmed_under_load
+sort_impl_unit!(sort_impl_i32_4_2_l5_nf, i32, 4, 2, 5, true, |x: i32| x as i64);
+// @unit name=sort_impl_i32_4_2_l5_nl props=C10 kind=bounded bound=4_valid_2_null_limit_5_nulls_last fns=sort_impl tier=thorough mem=2 timeout=900 note=not_confirmed_under_load
+sort_impl_unit!(sort_impl_i32_4_2_l5_nl, i32, 4, 2, 5, false, |x: i32| x as i64);
+// @unit name=sort_impl_i32_4_2_l4_nf props=C10 kind=bounded bound=4_valid_2_null_limit_4_nulls_first fns=sort_impl tier=thorough mem=2 timeout=900 note=not_confirmed_under_load
+sort_impl_unit!(sort_impl_i32_4_2_l4_nf, i32, 4, 2, 4, true, |x: i32| x as i64);
+// @unit name=sort_impl_i32_4_0_none_nf props=C10 kind=bounded bound=4_valid_0_null_limit_none_nulls_first fns=sort_impl tier=thorough mem=2 timeout=900 note=not_confirmed_under_load
+sort_impl_unit!(sort_impl_i32_4_0_none_nf, i32, 4, 0, -1, true, |x: i32| x as i64);
+// @unit name=sort_impl_i32_4_0_l2_nf props=C10 kind=bounded bound=4_valid_0_null_limit_2_nulls_first fns=sort_impl tier=thorough mem=2 timeout=900 note=not_confirmed_under_load
+sort_impl_unit!(sort_impl_i32_4_0_l2_nf, i32, 4, 0, 2, true, |x: i32| x as i64);
+// @unit name=sort_impl_i32_4_0_l2_nl props=C10 kind=bounded bound=4_valid_0_null_limit_2_nulls_last fns=sort_impl tier=thorough mem=2 timeout=900 note=not_confirmed_under_load
+sort_impl_unit!(sort_impl_i32_4_0_l2_nl, i32, 4, 0, 2, false, |x: i32| x as i64);
+// @unit name=sort_impl_i32_4_0_l4_nl props=C10 kind=bounded bound=4_valid_0_null_limit_4_nulls_last fns=sort_impl tier=thorough mem=2 timeout=900 note=not_confirmed_under_load
+sort_impl_unit!(sort_impl_i32_4_0_l4_nl, i32, 4, 0, 4, false, |x: i32| x as i64);
+// @unit name=sort_impl_i32_0_2_none_nf props=C10 kind=bounded bound=0_valid_2_null_limit_none_nulls_first fns=sort_impl mem=2 timeout=900 tier=thorough note=not_confirmed_under_load
+sort_impl_unit!(sort_impl_i32_0_2_none_nf, i32, 0, 2, -1, true, |x: i32| x as i64);
+// @unit name=sort_impl_i32_0_2_l1_nl props=C10 kind=bounded bound=0_valid_2_null_limit_1_nulls_last fns=sort_impl mem=2 timeout=900 tier=thorough note=not_confirmed_under_load
+sort_impl_unit!(sort_impl_i32_0_2_l1_nl, i32, 0, 2, 1, false, |x: i32| x as i64);
+// @unit name=sort_impl_i32_0_2_l1_nf props=C10 kind=bounded bound=0_valid_2_null_limit_1_nulls_first fns=sort_impl tier=thorough mem=2 timeout=900 note=not_confirmed_under_load
+sort_impl_unit!(sort_impl_i32_0_2_l1_nf, i32, 0, 2, 1, true, |x: i32| x as i64);
+// @unit name=sort_impl_i32_0_0_none_nf props=C10 kind=bounded bound=0_valid_0_null_limit_none_nulls_first fns=sort_impl mem=2 timeout=900
+sort_impl_unit!(sort_impl_i32_0_0_none_nf, i32, 0, 0, -1, true, |x: i32| x as i64);
+// @unit name=sort_impl_i32_0_0_l3_nl props=C10 kind=bounded bound=0_valid_0_null_limit_3_nulls_last fns=sort_impl tier=thorough mem=2 timeout=900 note=not_confirmed_under_load
+sort_impl_unit!(sort_impl_i32_0_0_l3_nl, i32, 0, 0, 3, false, |x: i32| x as i64);
+// @unit name=sort_impl_i32_1_1_l1_nf props=C10 kind=bounded bound=1_valid_1_null_limit_1_nulls_first fns=sort_impl mem=2 timeout=900 tier=thorough note=not_confirmed_under_load
+sort_impl_unit!(sort_impl_i32_1_1_l1_nf, i32, 1, 1, 1, true, |x: i32| x as i64);
+// @unit name=sort_impl_i32_1_1_l1_nl props=C10 kind=bounded bound=1_valid_1_null_limit_1_nulls_last fns=sort_impl mem=2 timeout=900 tier=thorough note=not_confirmed_under_load
+sort_impl_unit!(sort_impl_i32_1_1_l1_nl, i32, 1, 1, 1, false, |x: i32| x as i64);
+// @unit name=sort_impl_i32_1_1_none_nf props=C10 kind=bounded bound=1_valid_1_null_limit_none_nulls_first fns=sort_impl tier=thorough mem=2 timeout=900 note=not_confirmed_under_load
+sort_impl_unit!(sort_impl_i32_1_1_none_nf, i32, 1, 1, -1, true, |x: i32| x as i64);
+// @unit name=sort_impl_i32_2_1_l2_nf props=C10 kind=bounded bound=2_valid_1_null_limit_2_nulls_first fns=sort_impl mem=2 timeout=900 tier=thorough note=not_confirmed_under_load
+sort_impl_unit!(sort_impl_i32_2_1_l2_nf, i32, 2, 1, 2, true, |x: i32| x as i64);
+// @unit name=sort_impl_i32_2_1_l2_nl props=C10 kind=bounded bound=2_valid_1_null_limit_2_nulls_last fns=sort_impl mem=2 timeout=900 tier=thorough note=not_confirmed_under_load
+sort_impl_unit!(sort_impl_i32_2_1_l2_nl, i32, 2, 1, 2, false, |x: i32| x as i64);
+// @unit name=sort_impl_i32_2_0_l1_nf props=C10 kind=bounded bound=2_valid_0_null_limit_1_nulls_first fns=sort_impl mem=2 timeout=900 tier=thorough note=not_confirmed_under_load
+sort_impl_unit!(sort_impl_i32_2_0_l1_nf, i32, 2, 0, 1, true, |x: i32| x as i64);
+// @unit name=sort_impl_f32_3_1_none_nl props=C10 kind=bounded bound=3_valid_1_null_limit_none_nulls_last fns=sort_impl mem=2 timeout=900 tier=thorough note=not_confirmed_under_load
+sort_impl_unit!(sort_impl_f32_3_1_none_nl, f32, 3, 1, -1, false, |x: f32| key32(x.to_bits()));
+// @unit name=sort_impl_f32_3_1_l2_nf props=C10 kind=bounded bound=3_valid_1_null_limit_2_nulls_first fns=sort_impl mem=2 timeout=900
+sort_impl_unit!(sort_impl_f32_3_1_l2_nf, f32, 3, 1, 2, true, |x: f32| key32(x.to_bits()));
+// @unit name=sort_impl_f32_3_1_l3_nf props=C10 kind=bounded bound=3_valid_1_null_limit_3_nulls_first fns=sort_impl tier=thorough mem=2 timeout=900 note=not_confirmed_under_load
+sort_impl_unit!(sort_impl_f32_3_1_l3_nf, f32, 3, 1, 3, true, |x: f32| key32(x.to_bits()));
+// @unit name=sort_impl_f32_2_2_l3_nl props=C10 kind=bounded bound=2_valid_2_null_limit_3_nulls_last fns=sort_impl tier=thorough mem=2 timeout=900 note=not_confirmed_under_load
+sort_impl_unit!(sort_impl_f32_2_2_l3_nl, f32, 2, 2, 3, false, |x: f32| key32(x.to_bits()));
+
+fn mk_i32<const N: usize>(v: [i32; N], nulls: Option<NullBuffer>) -> Int32Array {
+    match Int32Array::try_new(ScalarBuffer::from(v.to_vec()), nulls) {
+        Ok(a) => a,
+        Err(e) => { std::mem::forget(e); unreachable!() }
+    }
+}
+/// N-slot validity buffer over symbolic bytes (bits beyond N are garbage)
+fn nulls_n<const NB: usize>(bytes: [u8; NB], n: usize) -> NullBuffer {
+    NullBuffer::new(BooleanBuffer::new(Buffer::from(bytes.to_vec()), 0, n))
+}
+
+// Contract (C10): partition_validity(array) on an array of CONCRETE length N with a symbolic validity bitmap
+// (or no null buffer): returns (valid, nulls) such that both lists are strictly ascending, every index in
+// `valid` is < N and has its validity bit set, every index in `nulls` is < N and has it cleared, and
+// valid.len() + nulls.len() == N -- i.e. the two lists are disjoint, sorted, and cover 0..N exactly.
+// Reaches both the `null_count == 0` fast path and partition_validity_scan (set_indices_u32 on the bitmap
+// and on its complement). The array (contains DataType) is forgotten.
+fn part_validity<const N: usize, const NB: usize, const WITH_NULLS: bool>() {
+    let bytes: [u8; NB] = kani::any();
+    let arr = mk_i32([0i32; N], if WITH_NULLS { Some(nulls_n(bytes, N)) } else { None });
+    let (valid, nulls) = partition_validity(&arr);
+    assert!(valid.len() + nulls.len() == N);
+    let is_set = |i: usize| !WITH_NULLS || bit(&bytes, i);
+    let mut k = 0;
+    while k < N {
+        if k < valid.len() {
+            let v = valid[k] as usize;
+            assert!(v < N && is_set(v));
+            if k > 0 { assert!(valid[k - 1] < valid[k]); }
+        }
+        if k < nulls.len() {
+            let v = nulls[k] as usize;
+            assert!(v < N && !is_set(v));
+            if k > 0 { assert!(nulls[k - 1] < nulls[k]); }
+        }
+        k += 1;
+    }
+    kani::cover!(N == 0 || !WITH_NULLS || nulls.len() == N);
+    kani::cover!(N == 0 || !WITH_NULLS || valid.len() == N);            // null buffer present, no null: fast path
+    kani::cover!(N < 2 || !WITH_NULLS || (nulls.len() > 0 && valid.len() > 0 && nulls[0] == 0 && valid[valid.len() - 1] as usize == N - 1));
+    std::mem::forget(arr);
+}
+macro_rules! part_validity_unit {
+    ($name:ident, $n:expr, $wn:expr) => {
+        #[kani::proof]
+        #[kani::stub(alloc::fmt::format, stub_format)]
+        fn $name() { part_validity::<$n, { ($n + 7) / 8 + 1 }, $wn>() }
+    };
+}
+// @unit name=partition_validity_0 props=C10 kind=bounded bound=len_0 fns=partition_validity,partition_validity_scan mem=3 timeout=900 tier=thorough note=not_confirmed_under_load
+part_validity_unit!(partition_validity_0, 0, true);
+// @unit name=partition_validity_1 props=C10 kind=bounded bound=len_1 fns=partition_validity,partition_validity_scan mem=3 timeout=900 tier=thorough note=not_confirmed_under_load
+part_validity_unit!(partition_validity_1, 1, true);
+// @unit name=partition_validity_3_nonulls props=C10 kind=bounded bound=len_3_no_null_buffer fns=partition_validity,partition_validity_scan mem=3 timeout=900
+part_validity_unit!(partition_validity_3_nonulls, 3, false);
+// @unit name=partition_validity_7 props=C10 kind=bounded bound=len_7 fns=partition_validity,partition_validity_scan mem=3 timeout=900 tier=thorough note=not_confirmed_under_load
+part_validity_unit!(partition_validity_7, 7, true);
+// @unit name=partition_validity_8 props=C10 kind=bounded bound=len_8 fns=partition_validity,partition_validity_scan mem=3 timeout=900 tier=thorough note=not_confirmed_under_load
+part_validity_unit!(partition_validity_8, 8, true);
+// @unit name=partition_validity_9 props=C10 kind=bounded bound=len_9 fns=partition_validity,partition_validity_scan mem=3 timeout=900 tier=thorough note=not_confirmed_under_load
+part_validity_unit!(partition_validity_9, 9, true);
+// @unit name=partition_validity_10 props=C10 kind=bounded bound=len_10 fns=partition_validity,partition_validity_scan mem=3 timeout=900 tier=thorough note=not_confirmed_under_load
+part_validity_unit!(partition_validity_10, 10, true);
+// @unit name=partition_validity_63 props=C10 kind=bounded bound=len_63 fns=partition_validity,partition_validity_scan tier=thorough mem=3 timeout=900 note=not_confirmed_under_load
+part_validity_unit!(partition_validity_63, 63, true);
+// @unit name=partition_validity_64 props=C10 kind=bounded bound=len_64 fns=partition_validity,partition_validity_scan tier=thorough mem=3 timeout=900 note=not_confirmed_under_load
+part_validity_unit!(partition_validity_64, 64, true);
+// @unit name=partition_validity_65 props=C10 kind=bounded bound=len_65 fns=partition_validity,partition_validity_scan tier=thorough mem=3 timeout=900 note=not_confirmed_under_load
+part_validity_unit!(partition_validity_65, 65, true);
+// @unit name=partition_validity_70 props=C10 kind=bounded bound=len_70 fns=partition_validity,partition_validity_scan tier=thorough mem=3 timeout=900 note=not_confirmed_under_load
+part_validity_unit!(partition_validity_70, 70, true);
+// @unit name=partition_validity_70_nonulls props=C10 kind=bounded bound=len_70_no_null_buffer fns=partition_validity,partition_validity_scan tier=thorough mem=3 timeout=900 note=not_confirmed_under_load
+part_validity_unit!(partition_validity_70_nonulls, 70, false);
